@@ -356,13 +356,51 @@ def nv_of(obj):
     return float(v.value) if isinstance(v, u.Quantity) else float(v)
 
 
+def kind_of(v):
+    """type and unit of a returned value: Quantity (with its unit) / array / scalar"""
+    import astropy.units as u
+    if isinstance(v, u.Quantity):
+        return ('Quantity', v.unit.to_string())
+    if isinstance(v, np.ndarray):
+        return ('ndarray',)
+    return ('scalar',)
+
+
+def prof_expected_kind(cfg, op, normalized, cache):
+    """Type / unit a read must have in the UN-NORMALISED state (initially and after unnormalize(), which
+    restores 'the original state'): those of a fresh object without any call.  In the normalised state the
+    type / unit is compared with the fresh object given the same calls only (through `same`)."""
+    if normalized:
+        return None
+    fexc, fv = prof_fresh(cfg, [], op, cache)
+    return None if fexc else kind_of(fv)
+
+
 def prof_run(cfg, hist, cache):
     with Quiet():
         obj = prof_make(cfg)
     obs, bad, muts = [], [], []
     iscog = cfg['cls'] == 'CurveOfGrowth'
+    normalized = False
     for k, op in enumerate(hist):
+        if op in (4, 5):        # will this normalize be accepted?  (refused: zero or non-finite max / sum)
+            pexc, pv = prof_fresh(cfg, muts, 0, cache)
+            if pexc == 0:
+                arr = np.asarray(getattr(pv, 'value', pv), float)
+                with Quiet():
+                    nrm = (np.nanmax(arr) if op == 4 else np.nansum(arr)) if arr.size and not np.all(np.isnan(arr)) \
+                        else (np.nan if op == 4 else 0.0)
+                if nrm != 0 and np.isfinite(nrm):
+                    normalized = True
+        elif op == 6:
+            normalized = False
         exc, v = prof_apply(obj, op)
+        if is_pread(op) and exc == 0 and op <= 3:
+            want = prof_expected_kind(cfg, op, normalized, cache)
+            if want is not None and kind_of(v) != want:
+                bad.append((k, POPS[op], f'UNIT: is returned as {kind_of(v)} but must be {want} '
+                                         f'({"normalised" if normalized else "un-normalised"} state, inputs '
+                                         f'{"with" if cfg["unit"] else "without"} units)'))
         if is_pread(op):
             fexc, fv = prof_fresh(cfg, muts, op, cache)
             if exc != fexc:
@@ -399,7 +437,7 @@ def prof_configs(rng, tier):
             out.append(dict(cls=cls, kind=kind, seed=rng.randrange(1000), size=rng.choice([11, 12, 13]),
                             amp=rng.choice([40, 64, 100]), error=rng.random() < 0.7,
                             mask=rng.choice([None, None, 'edge', 'core']), nan=rng.random() < 0.25,
-                            unit=rng.random() < 0.25, off=rng.choice([0.0, 0.0, 0.5, 0.25]),
+                            unit=rng.random() < 0.4, off=rng.choice([0.0, 0.0, 0.5, 0.25]),
                             radii=radii, method=rng.choice(['exact', 'center', 'subpixel'])))
     return out
 
@@ -417,7 +455,8 @@ def section_prof(ctx, cases, meta):
         for _ in range(nh):
             n = rng.randint(1, 8)
             hists.append([rng.choice([0, 1, 2, 3, 4, 4, 5, 6, 6, 7, 8, 9, 10, 11]) for _ in range(n)])
-        hists += [[4, 2, 6, 2], [2, 4, 2, 6, 2], [5, 0, 1, 2, 3], [4, 5, 6, 0, 2], [7, 4, 7, 8, 6, 7, 8]]
+        hists += [[4, 2, 6, 2], [2, 4, 2, 6, 2], [5, 0, 1, 2, 3], [4, 5, 6, 0, 2], [7, 4, 7, 8, 6, 7, 8],
+                  [4, 0, 1, 3, 6, 0, 1, 2]]
         if ctx.tier == 'thorough':
             # every order of the three first reads around one normalize / one unnormalize
             for p in itertools.permutations([0, 1, 2, 4, 6]):
@@ -431,7 +470,8 @@ def section_prof(ctx, cases, meta):
             ctx.count_case(desc, any(o in PMUT for o in h))
             ctx.stat('prof', f"{cfg['cls']},{cfg['kind']}")
             for (k, name, what) in bad:
-                report(ctx, f"{cfg['cls']}.{name}:order-dependent",
+                report(ctx, f"{cfg['cls']}.{name}:" + ('unit-or-type-after-history' if what.startswith('UNIT')
+                                                       else 'order-dependent'),
                               f"{cfg['cls']}.{name} {what}; history {[POPS[o] for o in h[:k + 1]]}",
                               dict(desc, step=k, cmd='bin/check C09 --replay <this file>'))
             drc = 'None' if dexc != 0 else coq(Some(farr(dr)))
@@ -713,7 +753,7 @@ def psf_make(cfg, shared=None):
     if 'fitter' in sh:
         kw['fitter'] = sh['fitter']
     if cfg['iterative']:
-        obj = IterativePSFPhotometry(psf, (5, 5), finder, mode=cfg['mode'], maxiters=2, **kw)
+        obj = IterativePSFPhotometry(psf, (5, 5), finder, mode=cfg['mode'], maxiters=cfg.get('maxiters', 2), **kw)
     else:
         obj = PSFPhotometry(psf, (5, 5), finder=finder, **kw)
     obj._c09_model0 = np.array(psf.parameters)      # the constructor's model, as given
@@ -739,11 +779,55 @@ def psf_extra(obj):
             'inner_groupers': [fr.grouper is None for fr in obj.fit_results] if hasattr(obj, '_psfphot') else []}
 
 
-def psf_run(cfg, calls, cache):
+PSF_SHAPES = [None, (5, 5), (7, 7)]
+
+
+def is_img(op):
+    return isinstance(op[0], str)
+
+
+def psf_read(obj, op, last_d):
+    """READ operations of the history alphabet: ('img', 'model' | 'residual', psf_shape index, include_localbkg)"""
+    _, kind, si, incl = op
+    try:
+        with Quiet():
+            if kind == 'model':
+                return 0, obj.make_model_image((31, 31), psf_shape=PSF_SHAPES[si], include_localbkg=bool(incl))
+            return 0, obj.make_residual_image(psf_image(last_d), psf_shape=PSF_SHAPES[si], include_localbkg=bool(incl))
+    except Exception as e:  # noqa
+        return exc_code(e), None
+
+
+def psf_run(cfg, hist, cache):
+    """hist: calls (image, init kind, columns) and reads ('img', ...); every call is compared with the same call on
+    a fresh object, every read with the same read on a fresh object brought through the same CALLS only."""
     with Quiet():
         obj = psf_make(cfg)
     obs, bad = [], []
-    for k, (d, ini, tab) in enumerate(calls):
+    calls = []
+    for k, op in enumerate(hist):
+        op = tuple(op)
+        if is_img(op):
+            last_d = calls[-1][0] if calls else 0
+            exc, v = psf_read(obj, op, last_d)
+            key = (tuple(calls), op)
+            if key not in cache:
+                with Quiet():
+                    f = psf_make(cfg)
+                for c in calls:
+                    psf_call(f, *c)
+                cache[key] = psf_read(f, op, last_d)
+            fexc, fv = cache[key]
+            name = f'make_{op[1]}_image(psf_shape={PSF_SHAPES[op[2]]}, include_localbkg={bool(op[3])})'
+            if exc != fexc:
+                bad.append((k, f'READ: {name} raises (code {exc}) where a fresh object after the same calls gives '
+                               f'code {fexc}'))
+            elif exc == 0 and not same(v, fv):
+                bad.append((k, f'READ: {name} differs from a fresh object\'s after the same calls (without the '
+                               f'earlier reads)'))
+            continue
+        d, ini, tab = op
+        calls.append(op)
         exc, res = psf_call(obj, d, ini, tab)
         extra = psf_extra(obj) if exc == 0 else None
         key = (d, ini, tab)
@@ -781,13 +865,29 @@ def section_psf(ctx, cases, meta):
                          freefwhm=rng.random() < 0.5, xyb=rng.choice([None, None, 2.0])))
     cfgs.append(dict(finder=False, grouper=False, localbkg=False, iterative=False, mode=None, freefwhm=True, xyb=None))
     cfgs.append(dict(finder=True, grouper=True, localbkg=False, iterative=False, mode=None, freefwhm=True, xyb=None))
-    for grouper, mode in [(True, 'new'), (True, 'all'), (False, 'new')]:
-        cfgs.append(dict(finder=True, grouper=grouper, localbkg=rng.random() < 0.5, iterative=True, mode=mode,
-                         freefwhm=rng.random() < 0.5, xyb=None))
+    for grouper, mode, maxit in [(True, 'new', 1), (True, 'all', 3), (False, 'new', 2), (True, 'new', 3),
+                                 (True, 'all', 1)]:
+        cfgs.append(dict(finder=True, grouper=grouper, localbkg=rng.random() < 0.6, iterative=True, mode=mode,
+                         maxiters=maxit, freefwhm=rng.random() < 0.5, xyb=None))
     for cfg in cfgs:
         cache = {}
         hists = [[(0, 2, 0), (0, 1, 0), (0, 0, 0)] if cfg['finder'] else [(0, 2, 0), (0, 1, 0), (0, 1, 1)]]
         hists.append([(0, 1, 8), (0, 1, 0), (1, 1, 9), (1, 1, 1)])      # column sets differing from call to call
+
+        def img_read():
+            return ('img', rng.choice(['model', 'model', 'residual']), rng.randrange(3), rng.random() < 0.5)
+        # make_model_image / make_residual_image as READS: with and without the local background, both orders,
+        # after calls with non-zero local backgrounds
+        first = (0, 0, 0) if cfg['finder'] else (0, 1, 2)
+        hists.append([first, ('img', 'model', 1, True), ('img', 'model', 1, False), ('img', 'residual', 1, False),
+                      ('img', 'residual', 1, True), (1, 1, 2), ('img', 'model', 2, False), ('img', 'model', 2, True)])
+        for _ in range(2 if ctx.tier == 'quick' else 6):
+            h = [img_read()] if rng.random() < 0.2 else []
+            for _ in range(rng.randint(1, 2)):
+                ini = rng.choice([0, 1, 2]) if cfg['finder'] else rng.choice([1, 2])
+                h.append((rng.choice([0, 1, 2]), ini, rng.randrange(16) if ini else 0))
+                h += [img_read() for _ in range(rng.randint(1, 3))]
+            hists.append(h[:8])
         for _ in range(nh):
             h = []
             for _ in range(rng.randint(2, 5 if ctx.tier == 'quick' else 8)):
@@ -805,15 +905,19 @@ def section_psf(ctx, cases, meta):
             ctx.stat('psf', f"{'iter' if cfg['iterative'] else 'psf'},finder={cfg['finder']},grouper={cfg['grouper']},"
                             f"free_fwhm={cfg['freefwhm']},xy_bounds={cfg['xyb']}")
             for (k, what) in bad:
-                sig = (f"{desc['machine']}.grouper:replaced-by-None" if what.startswith('GROUPER')
+                sig = (f"{desc['machine']}.make_model_image:depends-on-earlier-reads" if what.startswith('READ')
+                       else f"{desc['machine']}.grouper:replaced-by-None" if what.startswith('GROUPER')
                        else f"{desc['machine']}.psf_model:parameters-overwritten" if what.startswith('MODEL')
                        else f"{desc['machine']}.__call__:after-earlier-call")
                 report(ctx, sig,
                               f"{desc['machine']} call {k} {what}; calls (image, init_params kind, columns) = {h[:k + 1]}",
                               dict(desc, step=k, cmd='bin/check C09 --replay <this file>'))
-            if any(c[1] == 3 for c in h):
+            raising = any((not is_img(c)) and c[1] == 3 for c in h)
+            if raising:
                 ctx.stat('psf', 'histories with a call raising half-way (direct oracle only)')
-            elif not cfg['iterative']:
+            if any(is_img(c) for c in h):
+                ctx.stat('psf', 'histories with make_model_image / make_residual_image reads')
+            if not raising and not cfg['iterative'] and obs:
                 cases.append(f"CPsf {coq(cfg['finder'])} {coq(cfg['grouper'])} {coq(obs)}")
                 meta.append(('psf', desc, bool(bad)))
     ctx.sample({'machine': 'PSFPhotometry', 'config': cfgs[0], 'calls': [[0, 2, 0], [0, 1, 0], [0, 0, 0]]})
@@ -1010,40 +1114,78 @@ def grid_eval(m, xy):
         return m.evaluate(xx + round(x0) - 3.0, yy + round(y0) - 3.0, 2.0, x0, y0)
 
 
+GSCALE = 8        # grid positions are multiples of 1/4, evaluation positions multiples of 1/8
+
+
+def grid_run(cfg, h, users_pick):
+    """evaluate at the positions h on one model (and its copy()); returns (Coq observations, bad)"""
+    m = grid_make(cfg)
+    users = [m, m.copy()]            # copy() shares the _interpolator dictionary with the original
+    obs, bad = [], []
+    for k, xy in enumerate(h):
+        exc, v = 0, None
+        try:
+            v = grid_eval(users[users_pick[k]], xy)
+        except Exception as e:  # noqa
+            exc = exc_code(e)
+        fv = grid_eval(grid_make(cfg), xy)
+        eqf = exc == 0 and same(v, fv)
+        if exc or not eqf:
+            bad.append((k, 'raises' if exc else 'differs from a fresh model'))
+        obs.append((int(round(GSCALE * xy[0])), int(round(GSCALE * xy[1])), eqf,
+                    [(int(round(GSCALE * kx)), int(round(GSCALE * ky))) for (kx, ky) in m._interpolator.keys()]))
+    return obs, bad
+
+
+def grid_axis(rng, kind, n):
+    if kind == 'integer':
+        return sorted(rng.sample(range(0, 40, 4), n))
+    if kind == 'subunit':            # reference positions less than one unit apart, negative and fractional
+        return sorted(v / 4.0 for v in rng.sample(range(-4, 9), n))
+    pool = [-3.5, -0.75, -0.25, 0.0, 0.25, 0.5, 0.75, 1.0, 1.5, 4.25, 10.0, 10.5, 23.75]   # non-uniform spacings
+    return sorted(rng.sample(pool, n))
+
+
 def section_grid(ctx, cases, meta):
     rng = ctx.rng
-    n = 30 if ctx.tier == 'quick' else 80
-    for _ in range(n):
+    n = 36 if ctx.tier == 'quick' else 120
+    for it in range(n):
         nx, ny = rng.choice([(2, 2), (3, 2), (2, 3), (3, 3)])
-        xg = sorted(rng.sample(range(0, 40, 4), nx))
-        yg = sorted(rng.sample(range(0, 40, 4), ny))
+        kind = ['integer', 'subunit', 'mixed'][it % 3]
+        xg, yg = grid_axis(rng, kind, nx), grid_axis(rng, rng.choice([kind, 'integer']), ny)
         cfg = dict(seed=rng.randrange(1000), xg=xg, yg=yg, os=rng.choice([1, 2]))
-        m = grid_make(cfg)
-        users = [m, m.copy()]            # copy() shares the _interpolator dictionary with the original
-        obs, h = [], []
-        for k in range(rng.randint(1, 8)):
-            xy = (rng.randint(-4, 84) / 2.0, rng.randint(-4, 84) / 2.0)
-            if rng.random() < 0.25:
-                xy = (float(rng.choice(xg)), rng.randint(-4, 84) / 2.0)     # on a grid line: zero weights
-            h.append(xy)
-            exc, v = 0, None
-            try:
-                v = grid_eval(users[0] if rng.random() < 0.7 else users[1], xy)
-            except Exception as e:  # noqa
-                exc = exc_code(e)
-            fv = grid_eval(grid_make(cfg), xy)
-            eqf = exc == 0 and same(v, fv)
-            if exc or not eqf:
-                report(ctx, 'GriddedPSFModel.evaluate:after-earlier-evaluations',
-                              f'GriddedPSFModel.evaluate at {xy} ' + ('raises' if exc else 'differs from a fresh model') +
-                              f' after evaluations at {h[:-1]}', {'machine': 'GriddedPSFModel', 'config': cfg, 'xy': h})
-            obs.append((int(2 * xy[0]), int(2 * xy[1]), eqf,
-                        [(int(2 * kx), int(2 * ky)) for (kx, ky) in m._interpolator.keys()]))
-        desc = {'machine': 'GriddedPSFModel', 'config': cfg, 'xy': h}
+
+        def point():
+            def coord(g):
+                lo, hi = g[0] - 1.0, g[-1] + 1.0
+                if rng.random() < 0.2:
+                    return float(rng.choice(g))                       # on a grid line: zero weights
+                return rng.randint(int(lo * 8), int(hi * 8)) / 8.0
+            return (coord(xg), coord(yg))
+        pts = [point() for _ in range(rng.randint(1, 4))]
+        if rng.random() < 0.6:
+            h = (pts + pts[::-1])[:8]          # the same cells visited in both orders
+        else:
+            h = [rng.choice(pts) if rng.random() < 0.3 else point() for _ in range(rng.randint(1, 8))]
+        pick = [0 if rng.random() < 0.7 else 1 for _ in h]
+        obs, bad = grid_run(cfg, h, pick)
+        desc = {'machine': 'GriddedPSFModel', 'config': cfg, 'xy': h, 'evaluated_on_copy': pick}
+        for (k, what) in bad:
+            report(ctx, 'GriddedPSFModel.evaluate:after-earlier-evaluations',
+                   f'GriddedPSFModel.evaluate at {h[k]} {what} after evaluations at {h[:k]} (grid x {xg}, y {yg})',
+                   dict(desc, step=k, cmd='bin/check C09 --replay <this file>'))
         ctx.count_case(desc, len(h) > 1)
-        ctx.stat('grid', f'{nx}x{ny}')
-        cases.append(f'CGrid {coq([2 * x for x in xg])} {coq([2 * y for y in yg])} {coq(obs)}')
-        meta.append(('grid', desc, False))
+        ctx.stat('grid', f'{kind},{nx}x{ny}')
+        cases.append(f'CGrid {coq([int(round(GSCALE * x)) for x in xg])} {coq([int(round(GSCALE * y)) for y in yg])} '
+                     f'{coq(obs)}')
+        meta.append(('grid', desc, bool(bad)))
+
+
+def replay_grid(r):
+    obs, bad = grid_run(r['config'], [tuple(p) for p in r['xy']], r['evaluated_on_copy'])
+    for (k, what) in bad:
+        print(f'evaluation {k} at {r["xy"][k]}: {what}')
+    return bad
 
 
 # --------------------------------------------------------------------------
@@ -1470,8 +1612,13 @@ def run(ctx):
         'PSFPhotometry (finder x grouper x local background x PSF model with/without a free shape parameter x '
         'xy_bounds; init_params none / table / table with group_id, flux, local_bkg, fwhm columns, the column set '
         'changing from call to call; the constructor\'s psf_model parameters snapshotted after every call), '
-        'IterativePSFPhotometry (new/all), DAO/IRAF/StarFinder, Ellipse.fit_image (linear, fix_*), '
-        'GriddedPSFModel evaluations (original and copy() sharing the cache); CROSS-OBJECT histories: 2-3 '
+        'IterativePSFPhotometry (new/all, maxiters 1-3), make_model_image / make_residual_image with each '
+        '(psf_shape, include_localbkg) as READ operations of both PSF machines (compared with a fresh object brought '
+        'through the same calls without the earlier reads), DAO/IRAF/StarFinder, Ellipse.fit_image (linear, fix_*), '
+        'GriddedPSFModel evaluations (original and copy() sharing the cache) on integer, sub-unit (negative / '
+        'fractional reference positions less than one unit apart) and non-uniform grids, the same cells visited in '
+        'both orders; type and unit (Quantity vs ndarray) of every profile read in the un-normalised state compared '
+        'with a fresh object without calls; CROSS-OBJECT histories: 2-3 '
         'Background2D objects (same mesh with / without coverage mask, different fill values) and pairs of '
         '(Iterative)PSFPhotometry objects sharing helper instances (default-argument singletons or one '
         'interpolator / estimator / finder / grouper / LocalBackground passed to both), read alternately and '
@@ -1540,6 +1687,8 @@ def replay(obj):
         bad = replay_prof(r)
     elif m == 'aperture':
         bad = replay_aper(r)
+    elif m == 'GriddedPSFModel':
+        bad = replay_grid(r)
     elif m == 'apertures-in-one-process':
         bad = replay_aper_process(r)
     elif m == 'Background2D-objects-sharing-helpers':
